@@ -61,7 +61,7 @@ def _dyn(draw, big):
     A = draw(gens.density_matrix_spec(n + 1))
     nt = draw(st.integers(40, 100 if not big else 160))
     # individual baths may have exactly zero reorganisation energy (an uncoupled site next to coupled ones)
-    zero = draw(st.sampled_from([None, None, None, 0, 1]))
+    zero = draw(st.sampled_from([None, None, 0, 0, 1]))
     if zero is not None and zero < n and kind != "c":
         spec["bath"][zero] = dict(spec["bath"][zero], reorg=0)
     return {"kind": kind, "spec": spec, "A": A, "nt": nt, "dt": draw(st.sampled_from([1.0, 0.5])),
